@@ -190,6 +190,9 @@ func (v *verdict) evalField(f *fieldD, s *source, tree map[string]any, path stri
 	null := present && leaf == nil
 	p := joinPath(path, f.key())
 	cls := f.Opt.String()
+	if f.Inherit {
+		cls += "+inherit"
+	}
 	optional := f.Opt == optPlain
 	if f.Opt == optDep || f.Opt == optNotDep {
 		v.nDep++
@@ -624,10 +627,14 @@ type comparer struct {
 	out      []mismatch
 	compared int
 	optEmb   bool // currently comparing something below an optional embedded struct
+	inherit  bool // currently comparing a field tagged `inherit` (or something below it)
 }
 
 func (c *comparer) bad(class string, k reflect.Kind, path, format string, a ...any) {
 	kind := kindClass(k)
+	if c.inherit {
+		class += "-or-inherited"
+	}
 	if c.optEmb {
 		class, kind = "in-optional-embedded", "member"
 	}
@@ -717,6 +724,10 @@ func (c *comparer) fields(fields []*fieldD, sv reflect.Value, cands []*source, t
 }
 
 func (c *comparer) field(f *fieldD, fv reflect.Value, s *source, tree map[string]any, p string, lenientAbsent bool) {
+	if f.Inherit && !c.inherit {
+		c.inherit = true
+		defer func() { c.inherit = false }()
+	}
 	ctx := s.ctx
 	leaf, present := tree[ctx.canon(f.key())]
 	null := present && leaf == nil
